@@ -15,6 +15,9 @@
      "A request marked for expansion is padded ... or the suite is rejected", for a whole suite
       file, whatever its other directives            marked_is_expanded_or_rejected, load_only_marking
      (the limit is per message of a stream)          accepts_sharp (2nd half), stream_fails_at, stream_verdict_total
+     (the readers the set-up code installs: the limit goes to a per-message reader, nothing bounds the body)
+                                                   documented_chain_sharp, per_message_chain_sharp, body_cap_not_sharp,
+                                                   installed_readers_documented  — over the regenerated call-site tables
      "the reference server accepts a message of exactly the limit and rejects one byte more ...
       and the reference client does the same"      accepts_sharp / expanded_verdict are statements about the
                                                    SPECIFICATION `accepts`; the real peers (connect-go's
@@ -179,6 +182,41 @@ Proof. vm_compute. auto. Qed.
 Example ex_body_length_is_not_the_measure :
   let sizes := [204800; 204800; 204800] in
   stream_accepts 204800 sizes = true /\ 204800 + 5 < fold_right (fun s a => 5 + s + a) 0 sizes.
+Proof. vm_compute. auto. Qed.
+
+(* ---- the readers the set-up code installs (kind c19.stream, 2-16 messages per stream) ---- *)
+(* the documented chain - the limit handed to the per-message reader and nothing round the body - is sharp
+   per message: any number of messages of exactly the limit is accepted *)
+Theorem documented_chain_sharp : forall limit,
+  stream_sharp_at limit (chain_accepts (documented_chain limit)).
+Proof. exact documented_chain_sharp_proof. Qed.
+Print Assumptions documented_chain_sharp.
+
+Theorem per_message_chain_sharp : forall limit kinds cap,
+  kinds <> [] -> Forall (fun k => k = 0) kinds ->
+  stream_sharp_at limit (chain_accepts (chain_of kinds limit cap)).
+Proof. exact per_message_chain_sharp_proof. Qed.
+Print Assumptions per_message_chain_sharp.
+
+(* no bound on the body, whatever its size, can stand in the chain: it refuses some stream of messages
+   that are each of exactly the limit *)
+Theorem body_cap_not_sharp : forall limit cap rs,
+  0 <= limit -> In (PerBody cap) rs -> ~ stream_sharp_at limit (chain_accepts rs).
+Proof. exact body_cap_not_sharp_proof. Qed.
+Print Assumptions body_cap_not_sharp.
+
+(* the read-limiting call sites of internal/app/referenceserver and internal/app/referenceclient as the
+   code has them now (C19_Consts.v, regenerated from the sources on every run) are the documented chain *)
+Theorem installed_readers_documented : forall limit cap,
+  chain_of c19_server_read_limiters limit cap = documented_chain limit /\
+  chain_of c19_client_read_limiters limit cap = documented_chain limit.
+Proof. exact installed_readers_documented_proof. Qed.
+Print Assumptions installed_readers_documented.
+
+Example ex_body_cap_refuses_at_limit :
+  chain_accepts [PerMessage 204800; PerBody (4 * 204800)] (repeat 204800 3) = true /\
+  chain_accepts [PerMessage 204800; PerBody (4 * 204800)] (repeat 204800 4) = false /\
+  chain_accepts (documented_chain 204800) (repeat 204800 16) = true.
 Proof. vm_compute. auto. Qed.
 
 (* ---- the loader (kind c19.load, and c19.wiring end to end) ---- *)
